@@ -201,14 +201,37 @@ class Fns(object):
         return fn
 
     def policy(self, layer):
-        from more_executors.retry import RetryPolicy
+        from more_executors.retry import RetryPolicy, ExceptionRetryPolicy
         env = self.env
         i = layer["_i"]
         p = layer["policy"]
 
+        def who(future):
+            e = future.exception()
+            return sub_of(e if e is not None else future.result())
+
+        if p.get("kind") == "exception":
+            kw = {k: p[k] for k in ("max_attempts", "sleep", "exponent", "max_sleep") if k in p}
+            if "exception_base" in p:
+                kw["exception_base"] = [ERR_CLASSES[c] for c in p["exception_base"]]
+
+            class R(ExceptionRetryPolicy):
+                """The library's own policy; the subclass only records the consultations."""
+
+                def should_retry(self, attempt, future):
+                    r = ExceptionRetryPolicy.should_retry(self, attempt, future)
+                    env.rec("ufn", "should_retry", i, attempt, who(future), bool(r))
+                    return r
+
+                def sleep_time(self, attempt, future):
+                    r = ExceptionRetryPolicy.sleep_time(self, attempt, future)
+                    env.rec("ufn", "sleep_time", i, attempt, who(future), r)
+                    return r
+            return R(**kw)
+
         class P(RetryPolicy):
             def should_retry(self, attempt, future):
-                env.rec("ufn", "should_retry", i, attempt)
+                env.rec("ufn", "should_retry", i, attempt, who(future), None)
                 if p.get("raise_should") == attempt:
                     raise env.exc(("should_retry", i, attempt))
                 if attempt >= p.get("max", 3):
@@ -218,7 +241,7 @@ class Fns(object):
                 return True
 
             def sleep_time(self, attempt, future):
-                env.rec("ufn", "sleep_time", i, attempt)
+                env.rec("ufn", "sleep_time", i, attempt, who(future), None)
                 if p.get("raise_sleep") == attempt:
                     raise env.exc(("sleep_time", i, attempt))
                 return p.get("sleep", 0)
